@@ -22,7 +22,10 @@ rule = ("scripts = 'l range <min> <max>' followed by 'l data'/'l run' pairs (run
         "length 4 (quick) / 5 (thorough), pairs of sequences for two dimensions, lengths around 65533/131066, and "
         "random data in up to three dimensions with repeated application, the transformations the library ships "
         "(layout::graph::transform3 with limits, the default transform::part()) with one-point remainders, empty "
-        "parts and lengths around 65535/65536; the model driver judges every record list "
+        "parts and lengths around 65535/65536, polyline::set over value stores of equal length (all three "
+        "transformations), re-set arrays (set after apply, set(-1)), a dimension the transformation lacks, the C++ "
+        "wrappers of join and code; the part view (polyline::part::points) is judged with the data: every point handed "
+        "out is visible in every applied dimension; the model driver judges every record list "
         "with the multi-dimensional form of the property")
 assumptions = [
     "doubles are exchanged only as dyadic fractions (|numerator| < 2^53, denominator <= 2^60); rounding of arbitrary "
